@@ -148,6 +148,24 @@ example : clientAcceptsSuite [0xc02f, 0x1301] (3, 4) 0x1301 = true ∧
     clientAcceptsSuite [0xc02f, 0x1301] (3, 3) 0xc02f = true ∧
     clientAcceptsSuite [0xc02f, 0x1301] (3, 3) 0x002f = false := by decide +kernel
 
+/-- resumption: whatever the server's cipher / MAC / key-exchange settings and whatever suite a cached
+    session or ticket carries, the server's "still willing to use that cipher" check lets it be resumed
+    in negotiated version `v` only if the suite's registered name defines it for `v` -/
+theorem resumed_only_in_defining_version :
+    ∀ (m : List MName) (c : List CName) (k : List KName) (s : Nat), ∀ v ∈ allVersions,
+      resumeSuiteOk m c k v s = true → ∃ sem, semOf s = some sem ∧ sem.definedIn v = true := by
+  have h : ∀ s ∈ ssl3Suites ++ tls12Suites ++ tls13Suites, ∀ v ∈ allVersions,
+      versionIncludes v v s = true → ∃ sem, semOf s = some sem ∧ sem.definedIn v = true := by
+    decide +kernel
+  intro m c k s v hv hok
+  have hinc : versionIncludes v v s = true := isIn_filter hok
+  exact h s (versionIncludes_mem hinc) v hv hinc
+
+example : resumeSuiteOk fullMac fullCipher fullKex (3, 3) 0x003c = true ∧
+    resumeSuiteOk fullMac fullCipher fullKex (3, 2) 0x003c = false ∧
+    resumeSuiteOk fullMac fullCipher fullKex (3, 4) 0xc02f = false ∧
+    resumeSuiteOk fullMac fullCipher fullKex (3, 1) 0x002f = true := by decide +kernel
+
 /-- every negotiable (suite, version, role) is one the name defines for that version -/
 theorem negotiated_only_in_defining_version :
     ∀ t ∈ negotiableTriples, ∃ sem, semOf t.1 = some sem ∧ sem.definedIn t.2.1 = true := by
